@@ -304,6 +304,7 @@ func slice(x, lo, hi, max value) value {
 
 	switch x := x.(type) {
 	case string:
+		checkLazy(x)
 		return x[l:h]
 	case sstr:
 		return mkStr([]value(x[l:h]))
@@ -329,6 +330,7 @@ func lookup(instr *ssa.Lookup, x, idx value) value {
 		}
 		return v
 	case string:
+		checkLazy(x)
 		return x[concIndex(idx, len(x))]
 	case sstr:
 		return x[concIndex(idx, len(x))]
@@ -355,6 +357,14 @@ func binop(op token.Token, t types.Type, x, y value) value {
 			}
 		}
 		return r
+	}
+	if I.lazyUsed && op != token.ADD {
+		if xs, ok := x.(string); ok {
+			checkLazy(xs)
+			if ys, ok := y.(string); ok {
+				checkLazy(ys)
+			}
+		}
 	}
 	if op == token.QUO || op == token.REM {
 		switch d := y.(type) {
@@ -1050,6 +1060,7 @@ func callBuiltin(caller *frame, callpos token.Pos, fn *ssa.Builtin, args []value
 	case "len":
 		switch x := args[0].(type) {
 		case string:
+			checkLazy(x)
 			return len(x)
 		case array:
 			return len(x)
@@ -1279,6 +1290,7 @@ func conv(t_dst, t_src types.Type, x value) value {
 		if s, ok := x.(string); ok {
 			switch ut_dst := ut_dst.(type) {
 			case *types.Slice:
+				checkLazy(s)
 				res := make([]value, 0, len(s))
 				switch ut_dst.Elem().Underlying().(*types.Basic).Kind() {
 				case types.Rune:
